@@ -1,7 +1,8 @@
 #!/bin/bash
 # seedtest.sh <patch.diff> <Cxx> [<Cxx> ...] : apply a seeded change to /repo, run the quick checks, always revert.
 P=$1; shift
-git -C /repo apply "$P" || exit 2
+git -C /repo apply "$P" 2>/dev/null || git -C /repo apply --3way "$P" 2>/dev/null || patch -d /repo -p1 --no-backup-if-mismatch -s < "$P" || { echo "SEEDTEST: patch does not apply to /repo"; git -C /repo checkout -- . ; exit 2; }
+git -C /repo reset -q 2>/dev/null
 trap 'git -C /repo checkout -- .' EXIT
 for c in "$@"; do
   out=$(cd /verif && VERIF_NO_EVIDENCE=1 python3 check.py $c --tier ${TIER:-quick} 2>&1)
